@@ -127,7 +127,8 @@ Section Model.
   | E_path_repeated (p : string)
   | E_not_utf8 (p : string)
   | E_parse (file : option (string * string)) (errs : list diag)   (* exit_if_errors: curr_file, all_errors *)
-  | E_raw (d : diag)                  (* non-library exception -> assemble's catch-all *)
+  | E_raw (d : diag)                  (* an exception escaping the parse stage: a library one passes through assemble,
+                                         RecursionError / any other one is re-raised as FlipJumpAssemblerException *)
   | E_backend (d : diag).
   Inductive result := R_ok (o : output) | R_err (e : err).
 
